@@ -490,6 +490,23 @@ pub fn extreme_plans(rng: &mut Rng, cast: &Cast) -> Vec<Plan> {
         mk(vec![single("n0", &va[0].0, 0, true), single("n1", &va[0].0, 1, true)], &["a_alice", "a2_alice"], rng),
         mk(vec![single("n0", &va[0].0, 0, true), single("n1", &va[0].0, 1, true)], &["a_alice", "b_alice"], rng),
         mk(vec![single("n0", &va[0].0, 0, true), single("n1", &va[0].0, 1, false)], &["b_alice", "a_alice"], rng),
+        // the same predicate / the same attribute from two credentials, each referent restricted to the definition of "its" credential,
+        // the second referent's credential listed first (a verifier that searches the credentials must pass over the first match)
+        {
+            let cid = |h: &str| cast.w.defs[cast.creds[cast.cred(h)].def].cid.0.clone();
+            let mut p0 = pred("p_b", 0);
+            p0.restrictions = Some(json!({"cred_def_id": cid("b_alice")}));
+            let mut p1 = pred("p_a", 1);
+            p1.restrictions = Some(json!({"cred_def_id": cid("a_alice")}));
+            // b_alice's value of the predicate attribute may differ: keep a threshold both meet
+            if let Kind::Pred(_, _, th) = &mut p0.kind { *th = 1; }
+            if let Kind::Pred(_, _, th) = &mut p1.kind { *th = 1; }
+            let mut n0 = single("n_b", &va[0].0, 0, true);
+            n0.restrictions = Some(json!({"cred_def_id": cid("b_alice")}));
+            let mut n1 = single("n_a", &va[0].0, 1, true);
+            n1.restrictions = Some(json!({"cred_def_id": cid("a_alice")}));
+            mk(vec![p1, p0, n1, n0], &["b_alice", "a_alice"], rng)
+        },
     ]
 }
 
